@@ -204,7 +204,8 @@ def command(command_size, word_size):
 
 
 def contracts(tier):
-    regs = [(3, 4, 0b1010)] if tier == "quick" else [(3, 4, 0b1010), (7, 8, 0), (3, 8, 0xA5), (15, 32, 0), (7, 16, 0xFFFF)]
+    # (address spaces larger than the highest register in use: unassigned addresses whose low bits match a register)
+    regs = [(5, 4, 0b1010)] if tier == "quick" else [(5, 4, 0b1010), (3, 4, 0b1010), (7, 8, 0), (3, 8, 0xA5), (15, 32, 0), (7, 16, 0xFFFF)]
     for a, w, dv in regs:
         yield ("SPIRegisterInterface", f"addr{a}_reg{w}_default{dv:x}", registers(a, w, dv))
     cmds = [(4, 4), (3, 5)] if tier == "quick" else [(4, 4), (3, 5), (8, 8), (8, 32), (16, 8), (1, 1), (2, 7)]
